@@ -213,6 +213,7 @@ Print Assumptions C09_sare_post_raise_force_reraise.
    (K13 misuse included): the exception being handled is raised, same object, and whatever traceback T it had
    on entry is still the end of its traceback *)
 Theorem C09_sare_post_capture_force_reraise : forall r0 lab wf wfc wf' b st o rest s3 st3 ob out' T,
+  tamper_free b = true ->
   hstack st = o :: rest -> o < next st -> tb_suffix T (tb_of st o) ->
   with_sare r0 lab wf (fun s st => exec b s st) st = (s3, st3, ob, out') ->
   exists s1 s' st', do_capture_stmt wfc s3 st3 = (s1, st3, Normal) /\
@@ -221,9 +222,47 @@ Theorem C09_sare_post_capture_force_reraise : forall r0 lab wf wfc wf' b st o re
 Proof. exact sare_post_capture_force_lemma. Qed.
 Print Assumptions C09_sare_post_capture_force_reraise.
 
-(* No body, however deep and K13 misuse included, makes an existing exception lose the traceback it had: T stays
+(* No body, however deep and K13 misuse included, that does not itself assign to __traceback__ makes an existing
+   exception lose the traceback it had: T stays
    a suffix of its traceback and of the traceback any context saved for it. *)
 Theorem C09_bodies_never_lose_traceback : forall b o T s st s' st' out,
+  tamper_free b = true ->
   o < next st -> keeps o T s st -> exec b s st = (s', st', out) -> keeps o T s' st'.
 Proof. exact exec_keeps_traceback. Qed.
 Print Assumptions C09_bodies_never_lose_traceback.
+
+(* ---- the same context OBJECT entered again (shared ctx reused in a loop; capture() under A, then with under B) ---- *)
+
+(* Whatever the object s holds from earlier use (a stale type_ left by force_reraise, an earlier capture of another
+   exception), entering it while o is being handled saves o: when the body completes, o — the exception active on
+   this LATEST entry — is re-raised, the same object with exactly its entry traceback plus the re-raise frames, iff
+   the flag is on; nothing otherwise.  Bodies may tamper with __traceback__ (with_traceback(self.tb) restores it). *)
+Theorem C09_sare_reuse_normal_exit : forall wf b s st o rest s3 st3 out',
+  hstack st = o :: rest -> o < next st -> direct_free0 b = true ->
+  with_same wf (fun s st => exec b s st) s st = (s3, st3, Normal, out') ->
+  exists s2 st2,
+    exec b (reentered s st o) st = (s2, st2, Normal) /\ reraise s3 = reraise s2 /\
+    (reraise s2 = true ->
+       out' = Raised o /\ same_object st st3 o /\ logs st3 = logs st2 /\
+       exists k, (k = KVal \/ k = KWtb) /\
+                 tb_of st3 o = wf :: FHelper FnExit KCall :: FHelper FnForce k :: tb_of st o) /\
+    (reraise s2 = false -> out' = Normal /\ st3 = st2).
+Proof. exact sare_reuse_normal_exit_lemma. Qed.
+Print Assumptions C09_sare_reuse_normal_exit.
+
+Theorem C09_sare_reuse_body_raises : forall wf b s st o rest s3 st3 x out',
+  hstack st = o :: rest ->
+  with_same wf (fun s st => exec b s st) s st = (s3, st3, Raised x, out') ->
+  exists st2,
+    exec b (reentered s st o) st = (s3, st2, Raised x) /\ out' = Raised x /\
+    st3 = (if reraise s3 then add_log (mklog (slab s3) (type_ s3) (value s3) (tb s3)) st2 else st2) /\
+    (direct_free0 b = true ->
+       slab s3 = slab s /\ type_ s3 = Some (cls_of st o) /\ value s3 = Some o /\ tb s3 = tb_of st o).
+Proof. exact sare_reuse_body_raises_lemma. Qed.
+Print Assumptions C09_sare_reuse_body_raises.
+
+(* bound-method filters of two instances are independent: each is the filter of its own instance's predicate *)
+Theorem C09_filter_bound_instances_independent : forall (O : Type) (upred : O -> predspec) (o1 o2 : O),
+  filt_get upred o1 = upred o1 /\ filt_get upred o2 = upred o2.
+Proof. exact filter_get_instances_lemma. Qed.
+Print Assumptions C09_filter_bound_instances_independent.
